@@ -17,6 +17,16 @@ _LOG = logging.getLogger("cirbo")
 _LOG.addHandler(logging.NullHandler())
 
 
+def raised_in_library(e):
+    """True if the innermost frame of the exception is code of the repository under test."""
+    from vlib import env
+
+    tb, last = e.__traceback__, None
+    while tb is not None:
+        tb, last = tb.tb_next, tb
+    return last is not None and os.path.abspath(last.tb_frame.f_code.co_filename).startswith(os.path.abspath(env.REPO) + os.sep)
+
+
 class Partial:
     """Picklable record of what a unit of work covered."""
 
